@@ -114,11 +114,13 @@ class Str:
 
 
 class GIter:
-    """Summary of core::iter adaptors: the remaining items with their guards."""
-    __slots__ = ("items",)
+    """Summary of core::iter adaptors: the remaining items with their guards.
+    by_ref: the iterator yields references to the items (slice::Iter before .cloned()/.copied())."""
+    __slots__ = ("items", "by_ref")
 
-    def __init__(self, items):
+    def __init__(self, items, by_ref=False):
         self.items = tuple(items)       # ((guard: True | z3 Bool, value), ...)
+        self.by_ref = by_ref
 
     def __repr__(self):
         return "GIter(%d)" % len(self.items)
@@ -968,11 +970,15 @@ class Executor:
         self_arg = self.temp_ref(st, clo) if p0.startswith("&") else clo
         return self.exec_body(st, b, [self_arg] + list(args), clo.subst)
 
-    def call_bool(self, st, clo, item):
-        """evaluate a predicate closure on &item without side effects -> bool | z3 Bool"""
+    def call_bool(self, st, clo, item, by_ref=False):
+        """evaluate a predicate closure on &Item without side effects -> bool | z3 Bool
+        (Item is &T for a by-reference iterator, so the closure then receives &&T)"""
         s2 = st.fork()
         n0 = len(s2.pc)
-        outs = self.call_closure(s2, clo, [self.temp_ref(s2, item)])
+        arg = self.temp_ref(s2, item)
+        if by_ref:
+            arg = self.temp_ref(s2, arg)
+        outs = self.call_closure(s2, clo, [arg])
         if any(o.panic for o in outs):
             raise Unsupported("panic inside iterator predicate")
         if len(outs) == 1:
@@ -1032,6 +1038,24 @@ class Executor:
         if head == "Decimal" and meth == "new_raw":
             used("Decimal::new_raw")
             return [Outcome(st, th.const_decimal(args[0].v, args[1].v))]
+        # ---- std's provided methods of PartialOrd / PartialEq for types that only define partial_cmp / eq
+        #      (documented: a < b iff partial_cmp == Some(Less), a <= b iff Some(Less | Equal), ..., a != b iff !(a == b))
+        if trait == "PartialOrd" and meth in ("lt", "le", "gt", "ge") and head != self.AMT and len(args) == 2:
+            used("PartialOrd::%s provided by std from partial_cmp" % meth)
+            outs = self.call(st, "<%s as PartialOrd>::partial_cmp" % ty, args, subst)
+            want = {"lt": ("Less",), "le": ("Less", "Equal"), "gt": ("Greater",), "ge": ("Greater", "Equal")}[meth]
+            res = []
+            for o in outs:
+                if o.panic:
+                    res.append(o)
+                else:
+                    v = o.value
+                    res.append(Outcome(o.state, v.variant == "Some" and v.payload[0].variant in want))
+            return res
+        if trait == "PartialEq" and meth == "ne" and head != self.AMT and len(args) == 2 and not isinstance(deref(args[0]), Str):
+            used("PartialEq::ne provided by std from eq")
+            outs = self.call(st, "<%s as PartialEq>::eq" % ty, args, subst)
+            return [o if o.panic else Outcome(o.state, b_not(o.value)) for o in outs]
         # ---- Clone of Copy values
         if trait == "Clone" and meth == "clone":
             used("Clone::clone (Copy types)")
@@ -1042,13 +1066,20 @@ class Executor:
             arr = deref(args[0])
             if not isinstance(arr, Arr):
                 raise Unsupported("slice::iter on %r" % (arr,))
-            return [Outcome(st, GIter([(True, x) for x in arr.vals]))]
+            return [Outcome(st, GIter([(True, x) for x in arr.vals], by_ref=True))]
         if trait == "Iterator" or (trait is None and isinstance(args[0] if args else None, GIter)):
             it = deref(args[0])
             if isinstance(it, GIter):
                 return self.iter_summary(st, it, meth, args, used)
         if trait == "IntoIterator" and meth == "into_iter":
-            return [Outcome(st, args[0])]
+            v = args[0]
+            if isinstance(v, GIter):
+                return [Outcome(st, v)]
+            tgt = deref(v)
+            if isinstance(tgt, Arr):
+                used("IntoIterator::into_iter (array / slice)")
+                return [Outcome(st, GIter([(True, x) for x in tgt.vals], by_ref=isinstance(v, Ref)))]
+            return [Outcome(st, v)]
         # ---- Option
         if head == "Option":
             v = deref(args[0])
@@ -1105,39 +1136,44 @@ class Executor:
 
     def iter_summary(self, st, it, meth, args, used):
         opt = "Option<?>"
-        if meth == "cloned" or meth == "copied" or meth == "by_ref":
+        def item_val(s_, x):
+            """the value `next` yields for item x"""
+            return self.temp_ref(s_, x) if it.by_ref else x
+
+        if meth == "cloned" or meth == "copied":
             used("Iterator::" + meth)
-            return [Outcome(st, it)]
+            return [Outcome(st, GIter(it.items, by_ref=False))]
+        if meth == "by_ref":
+            return [Outcome(st, args[0])]
         if meth == "filter":
             used("Iterator::filter")
             clo = args[1]
             items = []
             for g, x in it.items:
-                p = self.call_bool(st, clo, x)
+                p = self.call_bool(st, clo, x, it.by_ref)
                 g2 = b_and(g, p)
                 if g2 is False:
                     continue
                 items.append((g2, x))
-            return [Outcome(st, GIter(items))]
+            return [Outcome(st, GIter(items, by_ref=it.by_ref))]
         if meth == "next":
             used("Iterator::next")
             ref = args[0]
             cases = []
             neg = []
             for k, (g, x) in enumerate(it.items):
-                cases.append((b_and(*(neg + [g])), (Enum(opt, "Some", [x]), GIter(it.items[k + 1:]))))
+                cases.append((b_and(*(neg + [g])), ("some", x, GIter(it.items[k + 1:], by_ref=it.by_ref))))
                 if g is True:
                     break
                 neg.append(b_not(g))
             else:
-                cases.append((b_and(*neg), (Enum(opt, "None"), GIter(()))))
-            outs = self._fork_cases(st, cases)
+                cases.append((b_and(*neg), ("none", None, GIter((), by_ref=it.by_ref))))
             res = []
-            for o in outs:
-                val, rest = o.value
+            for o in self._fork_cases(st, cases):
+                tag, x, rest = o.value
                 if isinstance(ref, Ref):
                     self.store(o.state, ref, rest)
-                res.append(Outcome(o.state, val))
+                res.append(Outcome(o.state, Enum(opt, "None") if tag == "none" else Enum(opt, "Some", [item_val(o.state, x)])))
             return res
         if meth == "last":
             used("Iterator::last")
@@ -1145,13 +1181,14 @@ class Executor:
             neg = []
             for k in range(len(it.items) - 1, -1, -1):
                 g, x = it.items[k]
-                cases.append((b_and(*(neg + [g])), Enum(opt, "Some", [x])))
+                cases.append((b_and(*(neg + [g])), ("some", x)))
                 if g is True:
                     break
                 neg.append(b_not(g))
             else:
-                cases.append((b_and(*neg), Enum(opt, "None")))
-            return self._fork_cases(st, cases)
+                cases.append((b_and(*neg), ("none", None)))
+            return [Outcome(o.state, Enum(opt, "None") if o.value[0] == "none" else Enum(opt, "Some", [item_val(o.state, o.value[1])]))
+                    for o in self._fork_cases(st, cases)]
         if meth == "find":
             used("Iterator::find")
             src = it
@@ -1160,18 +1197,19 @@ class Executor:
             neg = []
             done = False
             for g, x in src.items:
-                p = self.call_bool(st, clo, x)
+                p = self.call_bool(st, clo, x, it.by_ref)
                 g2 = b_and(g, p)
                 if g2 is False:
                     continue
-                cases.append((b_and(*(neg + [g2])), Enum(opt, "Some", [x])))
+                cases.append((b_and(*(neg + [g2])), ("some", x)))
                 if g2 is True:
                     done = True
                     break
                 neg.append(b_not(g2))
             if not done:
-                cases.append((b_and(*neg), Enum(opt, "None")))
-            return self._fork_cases(st, cases)
+                cases.append((b_and(*neg), ("none", None)))
+            return [Outcome(o.state, Enum(opt, "None") if o.value[0] == "none" else Enum(opt, "Some", [item_val(o.state, o.value[1])]))
+                    for o in self._fork_cases(st, cases)]
         if meth == "find_map":
             used("Iterator::find_map")
             clo = args[1]
@@ -1182,7 +1220,7 @@ class Executor:
                     raise Unsupported("find_map over guarded items")
                 nxt = []
                 for s in cur:
-                    outs = self.call_closure(s, clo, [self.temp_ref(s, x)])
+                    outs = self.call_closure(s, clo, [self.temp_ref(s, x) if it.by_ref else x])
                     for o in outs:
                         if o.panic:
                             results.append(o)
